@@ -481,3 +481,32 @@ def rule_pad_function(u, rep):
     rep.count("pad_grid_points_folded", n)
     rep.count("pad_grid_points_undecided", undecided)
     return n
+
+
+def rule_pad_format(u, rep, rule="GOLDEN"):
+    """Format v1.1 pads with `(-offset) & (unit - 1)`. For power-of-two units that is the distance to the next
+    multiple (rule PAD); for the few non-power-of-two units that exist (known finding D15) it is not, but it is what
+    existing files contain: folded on a grid of such units, the function must still return exactly that."""
+    bs = [b for b in u.bodies.values() if b.d.get("name") == "pad_align_to" and b.d.get("krate") == "epserde" and b.kind == "Fn" and b.thir is not None]
+    n = 0
+    for b in bs:
+        ip = interp.Interp(u, wirehooks.WireHooks())
+        bad = None
+        for a in (3, 5, 6, 12, 20, 24):
+            for v in list(range(0, 50)) + [97, 1000, (1 << 32) + 7]:
+                try:
+                    paths = ip.run(b, [C(v), C(a)])
+                except (interp.Unsupported, RecursionError):
+                    continue
+                rets = [p for p in paths if p.kind == "ret"]
+                if len(paths) != 1 or len(rets) != 1 or not is_c(rets[0].value):
+                    continue
+                n += 1
+                want = ((1 << 64) - v) & (a - 1) if v else 0
+                if rets[0].value[1] != want and bad is None:
+                    bad = (v, a, rets[0].value[1], want)
+        rep.oblige(bad is None)
+        if bad is not None:
+            rep.add(rule, "pad:non-power-of-two", "format v1.1 pads offset %d to unit %d with %d bytes ((-offset) & (unit - 1)); the current pad_align_to gives %d: files of types with such units (RangeTo/RangeToInclusive over composite indices) change" % (bad[0], bad[1], bad[3], bad[2]), b.loc())
+    rep.count("pad_format_points", n)
+    return n
